@@ -3,7 +3,7 @@ From Coq Require Import ZifyBool.
 From Verif Require Import Common.Base Common.Tactics JsScope.Model JsScope.Abs JsScope.HeapLemmas
   JsScope.SimDefs JsScope.SimUse JsScope.SimDeclare JsScope.SimDeclare3 JsScope.SimExit.
 
-Record Closing (st : state) (log stk' : list nat) (home : nat -> nat) (F P : nat) (l : list nat) : Prop := {
+Record Closing (st : state) (log stk' : list nat) (home : nat -> nat) (F P : nat) (i : nat) (l : list nat) : Prop := {
   C_inv : InvS st log stk' home (extraF home F l) ;
   C_U : InvU st log ;
   C_hd : hd_error stk' = Some P ;
@@ -13,7 +13,10 @@ Record Closing (st : state) (log stk' : list nat) (home : nat -> nat) (F P : nat
   C_PF : (P < F)%nat ;
   C_ent : forall v, In v l -> (v < nvars st)%nat /\ is_root st v /\ (vd st v = 0 -> home v = F) ;
   C_nd : NoDup l ;
-  C_pu : forall v1 v2, In v1 l -> In v2 l -> vd st v1 = 0 -> vd st v2 = 0 -> vn st v1 = vn st v2 -> v1 = v2
+  C_pu : forall v1 v2, In v1 l -> In v2 l -> vd st v1 = 0 -> vd st v2 = 0 -> vn st v1 = vn st v2 ->
+                       argp st home v1 = argp st home v2 -> v1 = v2 ;
+  (* l is what is left of the undeclared list of F, from position i on *)
+  C_pos : forall j u, nth_error l j = Some u -> nth_error (sundeclared (sc_of st F)) (i + j) = Some u
 }.
 
 Lemma hd_error_in {A} (l : list A) a : hd_error l = Some a -> In a l.
@@ -21,7 +24,7 @@ Proof. destruct l; cbn; intros H; [discriminate|]. inversion H. left. reflexivit
 
 Lemma hoist_sim log stk' F P :
   len log < 65536 ->
-  forall l st home i, Closing st log stk' home F P l ->
+  forall l st home i, Closing st log stk' home F P i l ->
   exists st' home',
     hoist_loop st F i l = Ok st' /\ InvS st' log stk' home' no_extra /\ InvU st' log /\
     nscopes st' = nscopes st /\ sparent (sc_of st' F) = Some P /\
@@ -33,28 +36,33 @@ Proof.
   - exists st, home. split; [reflexivity|]. split.
     { eapply InvS_extra_weaken; [|apply C]. intros r _ _ _ [_ []]. }
     split; [apply C|]. split; [reflexivity|]. split; [apply C|]. split; [reflexivity|]. intros q _ _. reflexivity.
-  - destruct C as [CI CU Chd CF CFn Cpar CPF Cent Cnd Cpu].
+  - destruct C as [CI CU Chd CF CFn Cpar CPF Cent Cnd Cpu Cpos].
     assert (HP : In P stk') by (apply hd_error_in; exact Chd).
     assert (HPn : (P < nscopes st)%nat) by (eapply stack_ok_in; [apply CI|exact HP]).
     destruct (Cent v (or_introl eq_refl)) as (Hv & Hvroot & Hvh).
     assert (Hnd : ~ In v l') by (inversion Cnd; assumption).
     assert (Hnd' : NoDup l') by (inversion Cnd; assumption).
     assert (Huses : 1 <= vuses (vget st v)) by (apply (I_uses _ _ CU); exact Hv).
-    cbn [hoist_loop map a_hoist].
+    assert (Hi : nth_error (sundeclared (sc_of st F)) i = Some v).
+    { pose proof (Cpos O v eq_refl) as H. rewrite Nat.add_0_r in H. exact H. }
+    assert (Cpos' : forall j u, nth_error l' j = Some u -> nth_error (sundeclared (sc_of st F)) (S i + j) = Some u).
+    { intros j u Hj. pose proof (Cpos (S j) u Hj) as H. replace (S i + j)%nat with (i + S j)%nat by lia. exact H. }
+    cbn [hoist_loop map].
     replace (0 <? vuses (vget st v)) with true by (symmetry; apply Z.ltb_lt; lia). cbn [andb]. unfold NoDecl.
-    assert (Eu : uent_of st home v
-                 = if vdecl (vget st v) =? 0 then UPend (vname (vget st v)) else UPass (vname (vget st v)) (home v))
-      by reflexivity.
-    rewrite Eu. clear Eu.
     destruct (Z.eqb_spec (vdecl (vget st v)) 0) as [Hvd|Hvd].
     + (* an unresolved variable of the closing scope *)
-      fold (vd st v) in Hvd. specialize (Hvh Hvd). fold (vn st v).
-      assert (Hpu : forall u, In u l' -> vd st u = 0 -> vn st u = vn st v -> u = v).
-      { intros u Hu Du Nu. apply Cpu; [right; exact Hu|left; reflexivity|exact Du|exact Hvd|exact Nu]. }
+      fold (vd st v) in Hvd. specialize (Hvh Hvd).
+      assert (Ehoist : forall pr lg,
+                a_hoist F (uent_of st home v :: map (uent_of st home) l') pr lg
+                = a_hoist1 (a_hoist F (map (uent_of st home) l')) (lab_root st home v) (vn st v) pr lg).
+      { intros pr lg. unfold uent_of, lab_root. unfold vd in Hvd. rewrite Hvd, Hvh. cbn [Z.eqb].
+        destruct (argp st home v); reflexivity. }
+      rewrite Ehoist. clear Ehoist. unfold a_hoist1. fold (vn st v).
+      assert (Hpu : forall u, In u l' -> vd st u = 0 -> vn st u = vn st v -> argp st home u = argp st home v -> u = v).
+      { intros u Hu Du Nu Au. apply Cpu; [right; exact Hu|left; reflexivity|exact Du|exact Hvd|exact Nu|exact Au]. }
       assert (Hvnotund : forall q, In q stk' -> ~ In v (sundeclared (sc_of st q))).
       { intros q Hq H. destruct (I_und _ _ _ _ _ CI q v Hq H) as (_ & Hh & _). specialize (Hh Hvd). rewrite Hvh in Hh. subst q. contradiction. }
       rewrite (sget_valid st F CFn). cbn [rbind]. rewrite Cpar. rewrite (sget_valid st P HPn). cbn [rbind].
-      destruct (I_marks _ _ _ _ _ CI P HP) as [Hfor _].
       rewrite (find_declared_noskip st (sc_of st P) (vn st v)).
       rewrite a_find_decl_frame.
       (* the step after a merge into w, common to both ways of finding w *)
@@ -64,30 +72,32 @@ Proof.
           (sc1 <~ sget (merge_into st v w) F ;;
            hoist_loop (sset (merge_into st v w) F (set_undeclared sc1 (list_set (sundeclared sc1) i w))) F (S i) l') = Ok st' /\
           InvS st' log stk' home' no_extra /\ InvU st' log /\ nscopes st' = nscopes st /\ sparent (sc_of st' F) = Some P /\
-          a_hoist F (map (uent_of st home) l') (frame_of st home P) (relabel (LPend F (vn st v)) L (map (lab_of st home) log))
+          a_hoist F (map (uent_of st home) l') (frame_of st home P) (relabel (lab_root st home v) L (map (lab_of st home) log))
             = (frame_of st' home' P, map (lab_of st' home') log) /\
           (forall q, In q stk' -> q <> P -> frame_of st' home' q = frame_of st home q)).
       { intros w L Hw Hwroot Hwv Hwh HL.
-        destruct (merge_all st log stk' home F i v w l' CI CU Hlen CF CFn Hv Hvroot Hvd Hvh Hw Hwroot Hwv Hwh Hnd Hpu)
-          as (I2 & U2 & Env & Ens & Evn & Evd & Eroot & Hrel & Hfr & Hpar).
+        destruct (merge_all st log stk' home F i v w l' CI CU Hlen CF CFn Hv Hvroot Hvd Hvh Hw Hwroot Hwv Hwh Hnd Hpu Hi)
+          as (I2 & U2 & Env & Ens & Evn & Evd & Eroot & Hrel & Hfr & Hpar & Earg & Enarg & Eund).
         set (st1 := merge_into st v w) in *.
         assert (Hn1 : (F < nscopes st1)%nat) by (unfold st1, merge_into; rewrite !nscopes_vset; exact CFn).
         rewrite (sget_valid st1 F Hn1). cbn [rbind].
         set (st2 := sset st1 F (set_undeclared (sc_of st1 F) (list_set (sundeclared (sc_of st1 F)) i w))) in *.
-        assert (C2 : Closing st2 log stk' home F P l').
+        assert (C2 : Closing st2 log stk' home F P (S i) l').
         { constructor; try assumption.
           - rewrite Ens. exact CFn.
           - rewrite Hpar. exact Cpar.
           - intros u Hu. destruct (Cent u (or_intror Hu)) as (H1 & H2 & H3).
             assert (u <> v) by (intros ->; contradiction).
             rewrite Env, Evd. split; [exact H1|]. split; [apply Eroot; assumption|exact H3].
-          - intros v1 v2 H1 H2. rewrite !Evd, !Evn. apply Cpu; right; assumption. }
+          - intros v1 v2 H1 H2. rewrite !Evd, !Evn.
+            rewrite (Earg v1), (Earg v2) by (intros ->; contradiction). apply Cpu; right; assumption.
+          - intros j u Hj. rewrite Eund. rewrite nth_error_set_other by lia. apply Cpos'. exact Hj. }
         destruct (IH st2 home (S i) C2) as (st' & home' & Hrun & I' & U' & En' & Hpar' & Hah & Hfo).
         exists st', home'. split; [exact Hrun|]. split; [exact I'|]. split; [exact U'|]. split; [lia|]. split; [exact Hpar'|].
         split.
         - rewrite <- Hah. rewrite Hrel, HL. rewrite (Hfr P HP). f_equal.
-          apply map_ext. intros u. unfold uent_of. pose proof (Evd u) as E1. pose proof (Evn u) as E2. unfold vd, vn in *.
-          rewrite E1, E2. reflexivity.
+          apply map_ext_in. intros u Hu. unfold uent_of. pose proof (Evd u) as E1. pose proof (Evn u) as E2. unfold vd, vn in *.
+          rewrite E1, E2, (Earg u) by (intros ->; contradiction). reflexivity.
         - intros q Hq Hne. rewrite (Hfo q Hq Hne). apply Hfr. exact Hq. }
       destruct (find (fun u => vname (vget st u) =? vn st v) (rev (sdeclared (sc_of st P)))) as [w|] eqn:Ed.
       * (* declared in the parent *)
@@ -100,12 +110,14 @@ Proof.
         unfold lab_root. unfold vd in Hwd. replace (vdecl (vget st w) =? 0) with false by (symmetry; apply Z.eqb_neq; exact Hwd).
         rewrite Hwh, Hname. reflexivity.
       * cbn [option_map].
-        rewrite (find_undeclared_uses st (sc_of st P) (vn st v)).
+        rewrite (find_undeclared_uses st home P (vn st v)).
         2:{ intros u Hu. apply (I_uses _ _ CU). apply (I_valid _ _ _ _ _ CI P u HPn). right. exact Hu. }
+        2:{ apply (I_und_nodup _ _ _ _ _ CI P HP). }
+        2:{ intros u Hu Hd0. apply (I_und _ _ _ _ _ CI P u HP Hu). exact Hd0. }
         rewrite a_find_und_frame.
-        destruct (find (fun u => vname (vget st u) =? vn st v) (sundeclared (sc_of st P))) as [w|] eqn:Eu.
+        destruct (find (und_pred st home (vn st v)) (sundeclared (sc_of st P))) as [w|] eqn:Eu.
         -- (* used before in the parent, or a declaration passed through the parent *)
-           apply find_some_name in Eu. destruct Eu as [Hin Hname].
+           apply find_some_und in Eu. destruct Eu as (Hin & Hname & Hwna).
            destruct (I_und _ _ _ _ _ CI P w HP Hin) as (Hwroot & Hwh & Hwle).
            assert (Hw : (w < nvars st)%nat) by (apply (I_valid _ _ _ _ _ CI P w HPn); right; exact Hin).
            assert (Hwv : w <> v) by (intros ->; apply (Hvnotund P HP Hin)).
@@ -114,35 +126,43 @@ Proof.
                         = match uent_of st home w with
                           | UPend _ => LPend P (vn st v)
                           | UPass _ fs => LDecl fs (vn st v)
+                          | UArg _ => LArg P (vn st v)
                           end).
            { unfold lab_root, uent_of. unfold vd in Hwh.
-             destruct (Z.eqb_spec (vdecl (vget st w)) 0) as [E|E]; rewrite Hname; [rewrite (Hwh E)|]; reflexivity. }
+             destruct (Z.eqb_spec (vdecl (vget st w)) 0) as [E|E]; rewrite Hname; [rewrite (Hwh E); destruct (argp st home w)|]; reflexivity. }
+           assert (Enoarg : forall y, uent_of st home w <> UArg y).
+           { intros y. unfold uent_of. destruct (Z.eqb_spec (vdecl (vget st w)) 0) as [E|E]; [rewrite (Hwna E)|]; discriminate. }
            destruct (Hmerge w _ Hw Hwroot Hwv ltac:(lia) EL) as (st' & home' & Hrun & Hrest).
            exists st', home'. split; [exact Hrun|].
-           destruct (uent_of st home w); exact Hrest.
+           destruct (uent_of st home w) eqn:Euw; [exact Hrest|exact Hrest|exfalso; eapply Enoarg; reflexivity].
         -- (* moved to the parent *)
            cbn [option_map].
            destruct (move_all st log stk' home F P v l' CI CU HP CF CPF Hv Hvroot Hvd Hvh Eu Hpu)
-             as (I1 & U1 & Env & Ens & Evg & Ehome & Hrel & HfP & Hfo & Hsc).
+             as (I1 & U1 & Env & Ens & Evg & Ehome & Hrel & HfP & Hfo & Hsc & Earg).
            set (st1 := sset st P (set_undeclared (sc_of st P) (sundeclared (sc_of st P) ++ [v]))) in *.
            set (home1 := fun u => if Nat.eqb u v then P else home u) in *.
-           assert (C1 : Closing st1 log stk' home1 F P l').
+           assert (C1 : Closing st1 log stk' home1 F P (S i) l').
            { constructor; try assumption.
              - rewrite Ens. exact CFn.
              - rewrite Hsc by lia. exact Cpar.
              - intros u Hu. destruct (Cent u (or_intror Hu)) as (H1 & H2 & H3).
                assert (u <> v) by (intros ->; contradiction).
                rewrite Env. unfold vd, is_root, home1. rewrite Evg, Ehome by assumption. repeat split; assumption.
-             - intros v1 v2 H1 H2. unfold vd, vn. rewrite !Evg. apply Cpu; right; assumption. }
+             - intros v1 v2 H1 H2. unfold vd, vn. rewrite !Evg.
+               rewrite (Earg v1), (Earg v2) by (intros ->; contradiction). apply Cpu; right; assumption.
+             - intros j u Hj. rewrite Hsc by lia. apply Cpos'. exact Hj. }
            destruct (IH st1 home1 (S i) C1) as (st' & home' & Hrun & I' & U' & En' & Hpar' & Hah & Hfo').
            exists st', home'. split; [exact Hrun|]. split; [exact I'|]. split; [exact U'|]. split; [lia|]. split; [exact Hpar'|].
            split.
            ++ rewrite <- Hah. rewrite Hrel, HfP. f_equal.
               apply map_ext_in. intros u Hu. assert (u <> v) by (intros ->; contradiction).
-              unfold uent_of, home1. rewrite Evg, Ehome by assumption. reflexivity.
+              unfold uent_of, home1. rewrite Evg, Ehome by assumption. fold home1. rewrite (Earg u) by assumption. reflexivity.
            ++ intros q Hq Hne. rewrite (Hfo' q Hq Hne). apply Hfo; assumption.
     + (* a declaration passed through: skipped *)
-      assert (C' : Closing st log stk' home F P l').
+      assert (Eu : uent_of st home v = UPass (vname (vget st v)) (home v)).
+      { unfold uent_of. destruct (Z.eqb_spec (vdecl (vget st v)) 0); [contradiction|reflexivity]. }
+      rewrite Eu. cbn [a_hoist].
+      assert (C' : Closing st log stk' home F P (S i) l').
       { constructor; try assumption.
         - eapply InvS_extra_weaken; [|exact CI]. intros r _ _ Dr [H1 [H2|H2]]; [subst r; contradiction|split; assumption].
         - intros u Hu. apply Cent. right. exact Hu.
@@ -165,7 +185,7 @@ Proof.
   destruct Hstack as (_ & Hpar & HPF & Hstack').
   pose proof (stack_ok_nodup _ _ (I_stack _ _ _ _ _ I)) as Hnd. rewrite Hstk in Hnd.
   assert (HFnot : ~ In F (P :: rest)) by (inversion Hnd; assumption).
-  assert (C : Closing st log (P :: rest) home F P (sundeclared (sc_of st F))).
+  assert (C : Closing st log (P :: rest) home F P O (sundeclared (sc_of st F))).
   { pose proof I as I'. dI I'. constructor; try assumption; try reflexivity.
     - constructor; try assumption.
       + intros s v Hs. apply Iund. rewrite Hstk. right. exact Hs.
@@ -177,7 +197,8 @@ Proof.
     - intros v Hv. destruct (Iund F v HFs Hv) as (H1 & H2 & _). split; [|split; assumption].
       apply (Ivalid F v HFn). right. exact Hv.
     - apply Iunodup. exact HFs.
-    - intros v1 v2. apply Ipuniq. exact HFs. }
+    - intros v1 v2. apply Ipuniq. exact HFs.
+    - intros j u Hj. exact Hj. }
   destruct (hoist_sim log (P :: rest) F P Hlen _ st home O C) as (st' & home' & Hrun & I' & U' & En & Hpar' & Hah & Hfo).
   exists st', home'. split.
   { unfold exit_scope, hoist_undeclared. cbn [pcur pst plog]. rewrite (sget_valid st F HFn). cbn [rbind]. rewrite Hrun. cbn [rbind].
